@@ -297,18 +297,18 @@ def V.cls : V → String
   | .str _ => "str" | .list _ => "list" | .tuple _ => "tuple" | .set _ => "set"
   | .fset _ => "frozenset" | .dict _ => "dict" | .obj tag => tagCls tag
 
-/-- `hasattr(x, a)` as far as the catalogue of instance-dependent types looks (`name`, `flag`:
+/-- `hasattr(x, a)` as far as the catalogue of instance-dependent types looks (`label`, `flag`:
     no builtin value has them) -/
 def V.hasAttr : V → String → Bool
   | .obj tag, a => tagHasAttr tag a
   | _, _ => false
 
 /-- Types whose `__instancecheck__` looks at the *instance*, not only at its class:
-    `HasName` is a `typing.runtime_checkable` Protocol with the data member `name`,
+    `HasLabel` is a `typing.runtime_checkable` Protocol with the data member `label`,
     `Flagged` a class whose metaclass defines `__instancecheck__` as `hasattr(inst, 'flag')`.
     (Python definitions: harness/props/c10.py `World.cls`.)  Two instances of one class may
     differ in the answer. -/
-def protoTable : List (String × String) := [("HasName", "name"), ("Flagged", "flag")]
+def protoTable : List (String × String) := [("HasLabel", "label"), ("Flagged", "flag")]
 
 /-- `isinstance(x, c)`: through the class table (real MRO followed by the ABCs the class is a
     virtual subclass of — builtin rows generated, registrations applied by `registerCls`), or,
